@@ -17,6 +17,10 @@ class Ticket:
         Ticket.issued += 1
         self.label = label
         self.number = Ticket.issued
+        if Ticket.issued == 1:
+            # only the very first ticket of a process has this field: an assertion on it cannot even be
+            # evaluated on a later execution (it errors), while the one on `number` merely fails
+            self.first_of_process = True
 
     def describe(self) -> str:
         return f"{self.label}#{len(self.label)}"
